@@ -77,7 +77,17 @@ int str_table_copy(str_table_t *dst, const str_table_t *src)
 	hash_table_foreach(dst->ht, ent) {
 		bucket = alloc_flex(sizeof(*bucket), 1, strlen(ent->key) + 1);
 		if (bucket == NULL) {
-			str_table_cleanup(dst);
+			/* the entries from here on still point at the
+			   buckets of src: release only our own copies */
+			hash_table_foreach(dst->ht, it) {
+				if (it == ent)
+					break;
+				free(it->data);
+			}
+
+			hash_table_destroy(dst->ht, NULL);
+			array_cleanup(&dst->bucket_ptrs);
+			memset(dst, 0, sizeof(*dst));
 			return SQFS_ERROR_ALLOC;
 		}
 
